@@ -169,6 +169,9 @@ def run(ctx):
              "non-trivial = at least one pass")
     L = ctx.pick(2, 3)
     n = 0
+    # the witness of the open finding F3 (always exercised: the KNOWN-FINDING line is printed on every run)
+    run_sequence(ctx, "exhaustive", 1, 0, [["bsr", 0, [0.0, -1e-07, 1.0], -2.4018829939767645, 0.7853981633974483]],
+                 [["decompose", "zyz"]])
     for nq, nb, specs in SEEDS:
         A = pass_alphabet(nq)
         seqs = [list(t) for k in range(1, L + 1) for t in itertools.product(A, repeat=k)]
